@@ -72,15 +72,37 @@ func OpenModify(s spb.GRIBIServer) *ModStream {
 
 // Recv implements the server side's Recv.
 func (m *ModStream) Recv() (*spb.ModifyRequest, error) {
+	// Once the handler has returned the stream is dead (as with gRPC, whose Recv fails
+	// as soon as the handler returns): a message must never reach a handler goroutine
+	// that outlived its RPC.
+	select {
+	case <-m.done:
+		return nil, context.Canceled
+	default:
+	}
 	select {
 	case r, ok := <-m.in:
 		if !ok {
 			return nil, io.EOF
 		}
+		select {
+		case <-m.done:
+			return nil, context.Canceled
+		default:
+		}
 		return r, nil
 	case err := <-m.recvErr:
 		return nil, err
+	case <-m.done:
+		return nil, context.Canceled
 	}
+}
+
+// AwaitEnd waits for the RPC to end and returns its status (nil = OK); ok is false
+// if it did not end within the watchdog.
+func (m *ModStream) AwaitEnd() (error, bool) {
+	err, wd := m.WaitEnd()
+	return err, wd == nil
 }
 
 // Send implements the server side's Send.
